@@ -443,6 +443,28 @@ func extractC17() *lean {
 	}
 	l.def("addSupportedAlgorithmCallers", "List String", leanStrList(callers["AddSupportedAlgorithm("]), callers["AddSupportedAlgorithm("])
 	l.def("dagSignatureVerifierInstalledIn", "List String", leanStrList(callers["NewTransactionSignatureVerifier("]), callers["NewTransactionSignatureVerifier("])
+	// ---- alg fits key (ECDSA curve): the helper, verbatim, and who calls it
+	fitBody := "MISSING"
+	if fd := funcDecl(algF, "AlgorithmFitsKey"); fd != nil {
+		fitBody = c17Src(fd.Body)
+	}
+	l.def("algorithmFitsKeyBody", "String", fmt.Sprintf("%q", fitBody), fitBody)
+	// the bearer-token key loop treats "jwx verified but the header algorithm does not fit the authorised key" as not verified
+	klFit := "MISSING"
+	if fd := funcDecl(mw, "checkConnectionAuthorization"); fd != nil {
+		ast.Inspect(fd, func(n ast.Node) bool {
+			if is, ok := n.(*ast.IfStmt); ok && strings.Contains(c17Src(is.Cond), "credentialAlgorithmFitsKey") {
+				klFit = c17Src(is.Cond) + " => " + c17Src(is.Body)
+			}
+			return true
+		})
+	}
+	l.def("apiTokenKeyLoopFitTest", "String", fmt.Sprintf("%q", klFit), klFit)
+	cfCalls := c17Calls(funcDecl(mw, "credentialAlgorithmFitsKey"))
+	l.def("credentialAlgorithmFitsKeyCalls", "List String", leanStrList(cfCalls), cfCalls)
+	l.def("dpopChecksAlgFit", "Bool", c17Bool(strings.Contains(strings.Join(dp, " "), "AlgorithmFitsKey")), strings.Contains(strings.Join(dp, " "), "AlgorithmFitsKey"))
+	dagFit := strings.Contains(strings.Join(vCalls, " "), "AlgorithmFitsKey") || strings.Contains(strings.Join(psp, " "), "AlgorithmFitsKey") || strings.Contains(strings.Join(psa, " "), "AlgorithmFitsKey")
+	l.def("dagChecksAlgFit", "Bool", c17Bool(dagFit), dagFit)
 	_, azF := parseFile("auth/services/oauth/authz_server.go")
 	vi := c17ErrConds(funcDecl(azF, "validateIssuer"))
 	l.def("validateIssuerErrConds", "List String", leanStrList(vi), vi)
